@@ -26,7 +26,34 @@ def run_scheds(c, scheds, tag):
     return mism, stats
 
 
+def close_window(c):
+    """MC_LockClose.tla: the holder owns the lock until the very end of Close; observed in-process at every write the holder makes
+    and, with a real second process, at the moment the cache closes the repository inside Close."""
+    c.tlc_model("MC_LockClose", "MC_LockClose.cfg", timeout=300, label="Close in steps: begin, flush, end; 2 holders")
+    r = c.tlc("MC_LockClose", "MC_LockClose_unlockfirst.cfg", timeout=300, label="witness: removing the lock first must be reported by the model")
+    if r.violated not in ("OwnerAlive", "WriteUnderLock"):
+        raise Broken("the model does not distinguish releasing the lock first from releasing it last (vacuity guard)")
+    out = os.path.join(c.scratch, "lock-close.ndjson")
+    c.vh(["lock-close", out, c.build_gitbug()], timeout=600)
+    rec = json.loads(open(out).readline())
+    c.cov["close_window"] = {k: rec[k] for k in ("writes", "probed", "probe", "lock_after_close")}
+    if rec["writes"] < 5 or not rec["probed"]:
+        raise Broken("the close window was not observed: %s" % rec)
+    if rec["lock_before_close"] != str(rec["pid"]):
+        c.report("lock:close-window:not-owner-before-close", "the holder does not own the lock while its cache is open: lock file %r" % rec["lock_before_close"], {"close_window": True})
+    if rec["unlocked"]:
+        c.report("lock:close-window:write-without-lock", "the holder wrote to the repository's local storage without owning the lock: %s" % "; ".join(rec["unlocked"][:3]),
+                 {"close_window": True})
+    if rec["probe"] != "refused":
+        c.report("lock:close-window:second-open-during-close", "a second process opening the cache while the holder is still inside Close was not refused: %s" % rec["probe"],
+                 {"close_window": True})
+    if rec["lock_after_close"] != "" or rec["close_err"]:
+        c.report("lock:close-window:lock-left", "after a clean Close the lock file is still there (%r) or Close failed (%s)" % (rec["lock_after_close"], rec["close_err"]),
+                 {"close_window": True})
+
+
 def run(c):
+    close_window(c)
     d = c.specdir()
     depth = 4 if c.tier == "quick" else 5
     cfg = "MC_Lock_run.cfg"
@@ -69,6 +96,8 @@ def run(c):
 def replay(c, rep):
     c.cov["states"] = c.cov["transitions"] = 1
     c.sample(rep["replay"])
+    if rep["replay"].get("close_window"):
+        return close_window(c)
     mism, _ = run_scheds(c, [rep["replay"]["schedule"]], "replay")
     for m in mism:
         c.report(rep["key"], m["why"], rep["replay"])
